@@ -33,7 +33,7 @@ def run(rec, cfg):
     MP.attach_parser_tokenize("C12")
     rng = cfg.rng("c12")
     corp = WT.corpus()
-    for h in range(cfg.scale(60, 1500)):
+    for h in range(cfg.scale(200, 2500)):
         if cfg.out_of_time():
             rec.truncated = True
             break
